@@ -10,9 +10,8 @@ Conventions as in Ymq/Model/Mg64.lean: every panic site of the checked profile
 (`debug_assert!(is_reduced)`, u32/u64 overflow and underflow, slice/index range) is `none`.
 `_add_slices` is `Limbs.addc` with initial carry 0; `_sub_slices`, the ripple loops of `reduce`
 and `add_small` and the bit-shift loop of `shl` are transcribed loop by loop.
-`FInt::mul` multiplies the two word vectors with a Karatsuba routine; that routine is NOT
-modelled: the model takes the exact 2N-word product (tied to the code by the K stream only)
-and then follows the code (`FInt(z[0], 0).sub(&FInt(z[1], 0))`).
+`FInt::mul` multiplies the two word vectors with a Karatsuba routine (`kmul`: split, the three
+recursive products, every carry, `mulbasic` below 17 words), then `FInt(z[0], 0).sub(&FInt(z[1], 0))`.
 No Mathlib import: this file is linked into the native driver.
 -/
 import Ymq.Model.Limbs
@@ -134,15 +133,103 @@ def butterfly (x y : FI) : Option (FI × FI) :=
         | some a, some b => some (a, b)
         | _, _ => none
 
-/-- `FInt::mul`; the Karatsuba product of the two word vectors is taken to be exact -/
+/-! ### the product of the word vectors inside `FInt::mul` -/
+
+/-- inner loop of `mulbasic` for one word `a = p[i]`: `xy = a·q[j] + carry` (u128), `z[i+j] += xy as u64`,
+`carry = (xy >> 64) + overflow` (u64); `none` = an overflow check of the checked profile fires -/
+def macRowChk (a : Nat) : List Nat → List Nat → Nat → Option (List Nat × Nat)
+  | y :: ys, z :: zs, c =>
+    let xy := a * y + c
+    if xy ≥ 2 ^ 128 then none
+    else
+      let s := z + xy % W
+      let carry := xy / W + s / W
+      if carry ≥ W then none
+      else
+        match macRowChk a ys zs carry with
+        | none => none
+        | some (r, c') => some (s % W :: r, c')
+  | _, _, c => some ([], c)
+
+/-- outer loop of `mulbasic(z, p, q)` from row `i` on: `z[i .. i+|q|]` accumulates `p[i]·q`,
+`z[i + q.len()] = carry` -/
+def mulBasicRows : List Nat → List Nat → Nat → List Nat → Option (List Nat)
+  | [], _, _, z => some z
+  | a :: ps, q, i, z =>
+    if z.length < i + q.length + 1 then none                       -- z[i + q.len()]
+    else
+      match macRowChk a q ((z.drop i).take q.length) 0 with
+      | none => none
+      | some (r, c) => mulBasicRows ps q (i + 1) (z.take i ++ r ++ [c] ++ z.drop (i + q.length + 1))
+
+/-- the middle product with its carries: from `zmid = zl·zr` (`zl`, `zr` the low `half` words of
+`plo + phi`, `qlo + qhi`, carries `cp`, `cq`): `carry = carryp & carryq`,
+`if carryq == 1 { carry += _add_slices(&mut zmid[half..], zl) }`,
+`if carryp == 1 { carry += _add_slices(&mut zmid[half..], zr) }`; returns (`zmid`, `carrymid`) -/
+def midCarry (zmid zl zr : List Nat) (cp cq half : Nat) : List Nat × Nat :=
+  let c0 := if cp = 1 ∧ cq = 1 then 1 else 0
+  let m1 := if cq = 1 then
+      (zmid.take half ++ (addc (zmid.drop half) zl 0).1, c0 + (addc (zmid.drop half) zl 0).2)
+    else (zmid, c0)
+  if cp = 1 then
+    (m1.1.take half ++ (addc (m1.1.drop half) zr 0).1, m1.2 + (addc (m1.1.drop half) zr 0).2)
+  else m1
+
+/-- the recombination: subtract `blo`, `bhi` from the middle (`_sub_slices` twice), store
+`carrymid - (carrylo + carryhi)` above it, add `blo` to `z[..n]` and `bhi` to `z[n..]`, propagate the
+carry of the low half (commit b8c535f), `debug_assert!(carry2 == 0)` -/
+def karaCombine (m2 : List Nat × Nat) (blo bhi : List Nat) (half n : Nat) : Option (List Nat) :=
+  let s1 := subSlices m2.1 blo 0
+  let s2 := subSlices s1.1 bhi 0
+  if m2.2 < s1.2 + s2.2 then none                                  -- carrymid - (carrylo + carryhi)
+  else if m2.2 - (s1.2 + s2.2) > 1 then none                       -- debug_assert!
+  else
+    let z := zeros half ++ s2.1 ++ [m2.2 - (s1.2 + s2.2)] ++ zeros (half - 1)
+    let a1 := addc (z.take n) blo 0
+    let a2 := addc (z.drop n) bhi 0
+    let hi := if a1.2 = 1 then ((addRipple a2.1 1).1, a2.2 + (addRipple a2.1 1).2) else a2
+    if hi.2 ≠ 0 then none                                          -- debug_assert!(carry2 == 0)
+    else some (a1.1 ++ hi.1)
+
+/-- `karatsuba(z, p, q, tmp)` inside `FInt::mul`, with `|z| = 2|p|`, `|q| = |p|` and `|tmp| = tl`: returns
+the new contents of `z`. Every call zero-fills its `z` first and `tmp` is only read after the
+recursive calls have written it (`blo`, `bhi`), so the previous contents of neither buffer matter and
+only the length of `tmp` is modelled. Carries exactly as in the code (after commit b8c535f). -/
+def kmul : Nat → Nat → List Nat → List Nat → Option (List Nat)
+  | 0, _, _, _ => none
+  | f + 1, tl, p, q =>
+    let n := p.length
+    if q.length ≠ n then none                                        -- &q[half..n] / zr.copy_from_slice
+    else if n ≤ 16 then mulBasicRows p q 0 (zeros (2 * n))
+    else
+      let half := n / 2
+      if n % 2 = 1 then none                                         -- zr has n - half words: copy_from_slice
+      else if tl < 2 * n then none                                   -- tmp.split_at_mut(2 * n)
+      else
+        let sp := addc (p.take half) (p.drop half) 0                 -- zl, carryp
+        let sq := addc (q.take half) (q.drop half) 0                 -- zr, carryq
+        match kmul f tl sp.1 sq.1 with                               -- zmid
+        | none => none
+        | some zmid =>
+          match kmul f (tl - 2 * n) (p.take half) (q.take half),
+                kmul f (tl - 2 * n) (p.drop half) (q.drop half) with
+          | some blo, some bhi => karaCombine (midCarry zmid sp.1 sq.1 sp.2 sq.2 half) blo bhi half n
+          | _, _ => none
+
+/-- recursion depth bound of `kmul` -/
+def KFUEL : Nat := 64
+
+/-- `FInt::mul`: both `top = 1` shortcuts, the Karatsuba product `mulk::<N>` (`z` of `2N`, `tmp` of `4N` words),
+`FInt(z[0], 0).sub(&FInt(z[1], 0))` -/
 def mul (x y : FI) : Option FI :=
   let N := x.ws.length
   if !isReduced x || !isReduced y then none
   else if x.top = 1 then sub (zero N) y
   else if y.top = 1 then sub (zero N) x
   else
-    let z := val x.ws * val y.ws
-    sub ⟨ofNat N z, 0⟩ ⟨ofNat N (z / W ^ N), 0⟩
+    match kmul KFUEL (4 * N) x.ws y.ws with
+    | none => none
+    | some z => sub ⟨z.take N, 0⟩ ⟨z.drop N, 0⟩
 
 /-- the bit-shift loop of `shl`: `wlo = (xi << sb) | carry; carry = xi >> (64 - sb)` -/
 def shlBits (sb : Nat) : List Nat → Nat → List Nat × Nat
